@@ -5,8 +5,9 @@ package main
 // verif_hooks*.go excluded), and for every field f of T:
 //
 //	reads  : the incoming value of f may be read: a load of f (directly, through a static callee, a closure, a deferred
-//	         closure, or a call through a func(*T) value resolved to every function of that signature in the package)
-//	         at a point where f is not definitely assigned since entry
+//	         closure, or a call through a function value, resolved to its possible targets: see callees) at a point
+//	         where f is not definitely assigned since entry.  A load whose only use is to be stored back into the same
+//	         field of the same instance (identity copy, see identityStores) is not a read.
 //	class  : none         no store to f on any path (transitively)
 //	         balanced     the only stores are f = f + c paired, in the same block, with a deferred f = f - c
 //	         must         f is assigned on every path to a normal return (paths on which the instance pointer is nil excluded)
@@ -14,6 +15,9 @@ package main
 //	                      value, and every other store stores the zero value
 //	         may          anything else
 //	allzero: every store to f (transitively) stores the zero value of its type
+//
+// A store of the field's own current value (`x.f = x.f`, or `f: x.f` inside `*x = T{...}`) is no store: the field keeps
+// its value.
 //
 // Sound over-approximation of reads / under-approximation of must for straight Go (no reflection, no unsafe).
 import (
@@ -63,7 +67,10 @@ type fxAnalysis struct {
 	all    fset
 	fns    []*ssa.Function
 	sum    map[*ssa.Function]*fxSummary
-	bySig  map[string][]*ssa.Function // func(*T)-shaped functions, for calls through function values
+	// address-taken functions of the package (closures that are not called where they are made, named functions,
+	// method values and method expressions used as values), by signature: the possible targets of a call through a
+	// function value of that signature
+	bySig map[string][]*ssa.Function
 	// depth counter of T as identified by the C02 recogniser (depthguard.go), -1 if none: its "balanced" class is
 	// decided by that recogniser's data flow (net step 0 on every return path), helpers inlined into their callers
 	ctr int
@@ -196,18 +203,179 @@ func (a *fxAnalysis) allFuncs() {
 			}
 		}
 	}
+	// Function values.  A call through a function value can only reach the unexported fields of T through a function
+	// written in this package (a closure written elsewhere reaches them only through the exported methods, i.e. it is
+	// the holder using the API).  The possible targets of such a call are therefore the functions of the package that
+	// are ever used as a VALUE - a closure that is not called where it is made (stored in a package-level map / slice /
+	// struct, returned, passed on), a named function, a method value p.m (go/ssa: closure over a synthetic bound-method
+	// wrapper) or a method expression (*T).m (synthetic thunk) - and whose signature is the signature of the called
+	// value.  The synthetic wrappers are analysed like any other function (their body is the static call of the method).
+	taken := map[*ssa.Function]bool{}
+	own := func(g *ssa.Function) bool {
+		if r := rootFn(g); r != nil && r.Pkg == a.pkg {
+			return true
+		}
+		return g.Pkg == nil && g.Synthetic != "" && a.wrapsOwn(g) // bound-method wrapper / thunk of a method of this package
+	}
+	var work []*ssa.Function
+	enter := func(g *ssa.Function) { // make sure g is analysed
+		if g != nil && !seen[g] && len(g.Blocks) > 0 {
+			seen[g] = true
+			a.fns = append(a.fns, g)
+			work = append(work, g)
+		}
+	}
+	use := func(g *ssa.Function) { // g is used as a value
+		if g != nil && !taken[g] && own(g) {
+			taken[g] = true
+			enter(g)
+		}
+	}
+	scan := func(f *ssa.Function) {
+		for _, b := range f.Blocks {
+			for _, ins := range b.Instrs {
+				if mc, ok := ins.(*ssa.MakeClosure); ok {
+					g, _ := mc.Fn.(*ssa.Function)
+					if g == nil {
+						continue
+					}
+					if own(g) {
+						enter(g)
+					}
+					calledInPlace := true
+					if refs := mc.Referrers(); refs != nil {
+						for _, r := range *refs {
+							if _, dbg := r.(*ssa.DebugRef); dbg {
+								continue
+							}
+							ci, ok := r.(ssa.CallInstruction)
+							if !ok || ci.Common().IsInvoke() || ci.Common().Value != ssa.Value(mc) || usedAsArg(ci.Common(), mc) {
+								calledInPlace = false
+							}
+						}
+					}
+					if !calledInPlace {
+						use(g)
+					}
+					continue
+				}
+				var callee ssa.Value
+				if ci, ok := ins.(ssa.CallInstruction); ok && !ci.Common().IsInvoke() {
+					callee = ci.Common().Value
+				}
+				for _, op := range ins.Operands(nil) {
+					if op == nil || *op == nil {
+						continue
+					}
+					g, ok := (*op).(*ssa.Function)
+					if !ok {
+						continue
+					}
+					if callee != nil && *op == callee && !usedAsArg(ins.(ssa.CallInstruction).Common(), callee) {
+						continue // in call position only: a static call
+					}
+					use(g)
+				}
+			}
+		}
+	}
+	work = append(work, a.fns...)
+	for len(work) > 0 {
+		f := work[0]
+		work = work[1:]
+		scan(f)
+	}
 	sort.Slice(a.fns, func(i, j int) bool { return a.fns[i].String() < a.fns[j].String() })
 	for _, f := range a.fns {
-		// calls through a func(*T) value are resolved to the closures of the package with that signature (the option
-		// constructors); unexported fields cannot be reached by closures written outside the package
-		if f.Parent() != nil && f.Signature.Recv() == nil && f.Signature.Params().Len() == 1 && f.Signature.Results().Len() == 0 &&
-			a.isTargetPtr(f.Signature.Params().At(0).Type()) {
-			a.bySig["func(*T)"] = append(a.bySig["func(*T)"], f)
+		if taken[f] {
+			k := sigKey(f.Signature)
+			a.bySig[k] = append(a.bySig[k], f)
 		}
 	}
 }
 
-// callees of a call instruction: static callee, closure, or every func(*T) of the package for a call through such a value
+// wrapsOwn: g is a synthetic wrapper (bound method closure, thunk) of a method declared in this package
+func (a *fxAnalysis) wrapsOwn(g *ssa.Function) bool {
+	for _, b := range g.Blocks {
+		for _, ins := range b.Instrs {
+			if ci, ok := ins.(ssa.CallInstruction); ok {
+				if sc := ci.Common().StaticCallee(); sc != nil && sc.Pkg == a.pkg {
+					return true
+				}
+			}
+		}
+	}
+	return false
+}
+
+func usedAsArg(c *ssa.CallCommon, v ssa.Value) bool {
+	for _, arg := range c.Args {
+		if arg == v {
+			return true
+		}
+	}
+	return false
+}
+
+// sigKey: parameter and result types of a signature (receiver and parameter names left out)
+func sigKey(sig *types.Signature) string {
+	var sb strings.Builder
+	tup := func(t *types.Tuple) {
+		for i := 0; i < t.Len(); i++ {
+			sb.WriteString(types.TypeString(t.At(i).Type(), nil))
+			sb.WriteByte(';')
+		}
+	}
+	tup(sig.Params())
+	if sig.Variadic() {
+		sb.WriteString("...")
+	}
+	sb.WriteString(" -> ")
+	tup(sig.Results())
+	return sb.String()
+}
+
+// localTargets: the functions a function value stands for when that is decided inside the calling function: a closure
+// or function constant, possibly through conversions to a named function type and through the phi of a local variable
+// assigned on several branches (`parse = p.parseSelect` in the arms of a switch)
+func localTargets(v ssa.Value, depth int, seen map[ssa.Value]bool) ([]*ssa.Function, bool) {
+	if depth > 8 {
+		return nil, false
+	}
+	if seen[v] {
+		return nil, true
+	}
+	seen[v] = true
+	switch x := v.(type) {
+	case *ssa.Function:
+		return []*ssa.Function{x}, true
+	case *ssa.MakeClosure:
+		if g, ok := x.Fn.(*ssa.Function); ok {
+			return []*ssa.Function{g}, true
+		}
+	case *ssa.ChangeType:
+		return localTargets(x.X, depth+1, seen)
+	case *ssa.Phi:
+		var out []*ssa.Function
+		for _, e := range x.Edges {
+			if c, ok := e.(*ssa.Const); ok && c.Value == nil {
+				continue // a nil function value: calling it panics, no callee
+			}
+			fs, ok := localTargets(e, depth+1, seen)
+			if !ok {
+				return nil, false
+			}
+			out = append(out, fs...)
+		}
+		return out, true
+	}
+	return nil, false
+}
+
+// callees of a call instruction: the static callee or closure; for a call through a function value the functions the
+// value can stand for: decided locally (localTargets), else every address-taken function of the package with the
+// value's signature (allFuncs).  unknown: the call may do anything to a T (a *T handed to code that is not analysed, or a
+// function value taking a *T for which the package has no candidate at all).
 func (a *fxAnalysis) callees(c *ssa.CallCommon) (fs []*ssa.Function, unknown bool) {
 	if c.IsInvoke() {
 		// interface method call: cannot reach the unexported fields of T except through a *T argument
@@ -219,12 +387,11 @@ func (a *fxAnalysis) callees(c *ssa.CallCommon) (fs []*ssa.Function, unknown boo
 		return nil, false
 	}
 	if sc := c.StaticCallee(); sc != nil {
-		if sc.Pkg == a.pkg || sc.Parent() != nil {
-			if len(sc.Blocks) > 0 {
-				return []*ssa.Function{sc}, false
-			}
+		if _, analysed := a.sum[sc]; analysed {
+			return []*ssa.Function{sc}, false
 		}
 		// function of another package: can reach T's unexported fields only through exported methods on a *T argument
+		// (function values among its arguments: see argFuncs)
 		for _, arg := range c.Args {
 			if a.isTargetPtr(arg.Type()) {
 				return nil, true
@@ -235,17 +402,60 @@ func (a *fxAnalysis) callees(c *ssa.CallCommon) (fs []*ssa.Function, unknown boo
 	if _, isBuiltin := c.Value.(*ssa.Builtin); isBuiltin {
 		return nil, false
 	}
-	if sig, ok := c.Value.Type().Underlying().(*types.Signature); ok {
-		if sig.Params().Len() == 1 && sig.Results().Len() == 0 && a.isTargetPtr(sig.Params().At(0).Type()) {
-			return a.bySig["func(*T)"], false
-		}
-		for i := 0; i < sig.Params().Len(); i++ {
-			if a.isTargetPtr(sig.Params().At(i).Type()) {
-				return nil, true
+	sig, ok := c.Value.Type().Underlying().(*types.Signature)
+	if !ok {
+		return nil, false
+	}
+	if ts, ok := localTargets(c.Value, 0, map[ssa.Value]bool{}); ok {
+		all := true
+		for _, g := range ts {
+			if _, analysed := a.sum[g]; !analysed {
+				all = false
 			}
+		}
+		if all {
+			return ts, false
+		}
+	}
+	if ts := a.bySig[sigKey(sig)]; len(ts) > 0 {
+		return ts, false
+	}
+	for i := 0; i < sig.Params().Len(); i++ {
+		if a.isTargetPtr(sig.Params().At(i).Type()) {
+			return nil, true
 		}
 	}
 	return nil, false
+}
+
+// argFuncs: functions of the package handed as VALUES to a call whose callee is not analysed (sort.Search(n, func...),
+// an interface method): the callee may call them any number of times, or not at all
+func (a *fxAnalysis) argFuncs(c *ssa.CallCommon) []*ssa.Function {
+	if !c.IsInvoke() {
+		if sc := c.StaticCallee(); sc != nil {
+			if _, analysed := a.sum[sc]; analysed {
+				return nil // the callee's own calls through its parameters are resolved by signature
+			}
+		} else if _, isBuiltin := c.Value.(*ssa.Builtin); !isBuiltin {
+			return nil // call through a function value: resolved to functions of the package, see above
+		}
+	}
+	var out []*ssa.Function
+	for _, arg := range c.Args {
+		if _, ok := arg.Type().Underlying().(*types.Signature); !ok {
+			continue
+		}
+		if ts, ok := localTargets(arg, 0, map[ssa.Value]bool{}); ok {
+			for _, g := range ts {
+				if _, analysed := a.sum[g]; analysed {
+					out = append(out, g)
+				}
+			}
+		} else {
+			out = append(out, a.bySig[sigKey(arg.Type().Underlying().(*types.Signature))]...)
+		}
+	}
+	return out
 }
 
 // nilSide: block b ends in `if x != nil` / `if x == nil` with x of type *T: the successor index on which x is nil, or -1
@@ -289,6 +499,7 @@ func (a *fxAnalysis) analyse(fn *ssa.Function) *fxSummary {
 		fs []*ssa.Function
 	}
 	var defers []def
+	id := a.identityStores(fn)
 	// per block: balanced-pair and zero-pair bookkeeping
 	for _, b := range fn.Blocks {
 		for _, ins := range b.Instrs {
@@ -385,7 +596,9 @@ func (a *fxAnalysis) analyse(fn *ssa.Function) *fxSummary {
 								}
 							case *ssa.UnOp:
 								if y.Op == token.MUL {
-									loadUse = true
+									if !id.load[y] { // a load that is only stored back into the same field observes nothing
+										loadUse = true
+									}
 								} else {
 									otherUse = true
 								}
@@ -428,14 +641,16 @@ func (a *fxAnalysis) analyse(fn *ssa.Function) *fxSummary {
 					}
 				case *ssa.Store:
 					if a.isTargetPtr(x.Addr.Type()) {
-						// *p = v  (whole-struct store): assigns every field
-						s.mayWrite |= a.all
-						s.unbalanced |= a.all
+						// *p = v  (whole-struct store): assigns every field (except those that get their own value back
+						// from an identity store further down the block: identityStores)
+						w := a.all &^ id.skip[x]
+						s.mayWrite |= w
+						s.unbalanced |= w
 						if !isZeroStruct(x.Val) {
-							s.nonzeroStore |= a.all
-							s.unpairedNonzero |= a.all
+							s.nonzeroStore |= w
+							s.unpairedNonzero |= w
 						}
-						da |= a.all
+						da |= w
 						continue
 					}
 					f, ok := a.fieldOf(x.Addr)
@@ -443,6 +658,9 @@ func (a *fxAnalysis) analyse(fn *ssa.Function) *fxSummary {
 						continue
 					}
 					bit := fset(1) << uint(f)
+					if id.skip[x]&bit != 0 {
+						continue // the field's own value is stored back (or a store overwritten by that one): the field keeps its value
+					}
 					s.mayWrite |= bit
 					zero := isZeroValue(x.Val)
 					if !zero {
@@ -490,6 +708,11 @@ func (a *fxAnalysis) analyse(fn *ssa.Function) *fxSummary {
 						ri |= a.all &^ da
 						continue
 					}
+					for _, g := range a.argFuncs(x.Common()) {
+						if gs := a.sum[g]; gs != nil {
+							ri |= gs.ri &^ da // may be called by the callee that is not analysed
+						}
+					}
 					if _, isGo := ins.(*ssa.Go); isGo {
 						for _, g := range fs {
 							if gs := a.sum[g]; gs != nil {
@@ -531,6 +754,15 @@ func (a *fxAnalysis) analyse(fn *ssa.Function) *fxSummary {
 				continue
 			}
 			fs, _ := a.callees(ci.Common())
+			for _, g := range a.argFuncs(ci.Common()) {
+				if gs := a.sum[g]; gs != nil && g != fn {
+					s.mayRead |= gs.mayRead
+					s.mayWrite |= gs.mayWrite
+					s.nonzeroStore |= gs.nonzeroStore
+					s.unbalanced |= gs.unbalanced | gs.mayWrite // not a paired / deferred call: every store counts
+					s.unpairedNonzero |= gs.unpairedNonzero
+				}
+			}
 			for _, g := range fs {
 				if gs := a.sum[g]; gs != nil && g != fn {
 					s.mayRead |= gs.mayRead
@@ -563,6 +795,150 @@ func (a *fxAnalysis) analyse(fn *ssa.Function) *fxSummary {
 		s.must = 0
 	}
 	return s
+}
+
+// identityStores: stores that leave a field with the value it had.  S: `x.f = v` is an identity store when v is the
+// value loaded from the same field of the same instance (same SSA pointer) earlier in the same block, and between the
+// load L and S the field is written - if at all - only by stores through the same pointer (a field store, or the
+// whole-struct store of `*x = T{f: x.f, ...}`, which go/ssa emits as `*x = zero; x.f = v; ...` after evaluating the
+// operands), with nothing between the first such store and S that could observe or keep the intermediate value (no
+// call, no load of the field).  Those stores are dead (overwritten by S) and S restores the value L saw, so the
+// segment L..S is the identity on f: none of the stores counts for f (skip), f is not "assigned" by them, and a load
+// all of whose uses are such stores is not a read of the incoming value (load).
+type identInfo struct {
+	skip map[*ssa.Store]fset
+	load map[*ssa.UnOp]bool
+}
+
+func (a *fxAnalysis) identityStores(fn *ssa.Function) identInfo {
+	id := identInfo{skip: map[*ssa.Store]fset{}, load: map[*ssa.UnOp]bool{}}
+	strip := func(v ssa.Value) ssa.Value {
+		for {
+			ct, ok := v.(*ssa.ChangeType)
+			if !ok {
+				return v
+			}
+			v = ct.X
+		}
+	}
+	identVal := map[*ssa.UnOp][]*ssa.Store{}
+	for _, b := range fn.Blocks {
+		pos := map[ssa.Instruction]int{}
+		for i, ins := range b.Instrs {
+			pos[ins] = i
+		}
+		for j, ins := range b.Instrs {
+			st, ok := ins.(*ssa.Store)
+			if !ok {
+				continue
+			}
+			f, ok := a.fieldOf(st.Addr)
+			if !ok {
+				continue
+			}
+			base := st.Addr.(*ssa.FieldAddr).X
+			ld, ok := strip(st.Val).(*ssa.UnOp)
+			if !ok || ld.Op != token.MUL || ld.Block() != b {
+				continue
+			}
+			g, ok := a.fieldOf(ld.X)
+			if !ok || g != f || ld.X.(*ssa.FieldAddr).X != base {
+				continue
+			}
+			i, ok := pos[ld]
+			if !ok || i >= j {
+				continue
+			}
+			bit := fset(1) << uint(f)
+			var dead []*ssa.Store
+			written, good := false, true
+			for k := i + 1; k < j && good; k++ {
+				switch y := b.Instrs[k].(type) {
+				case *ssa.Store:
+					if a.isTargetPtr(y.Addr.Type()) {
+						if y.Addr == base {
+							dead, written = append(dead, y), true
+						} else {
+							good = false // another instance (or this one under another name) is overwritten as a whole
+						}
+					} else if h, ok := a.fieldOf(y.Addr); ok && h == f {
+						if y.Addr.(*ssa.FieldAddr).X == base {
+							dead, written = append(dead, y), true
+						} else {
+							good = false
+						}
+					}
+				case *ssa.UnOp:
+					if y.Op == token.MUL && written {
+						if h, ok := a.fieldOf(y.X); (ok && h == f) || a.isTargetPtr(y.X.Type()) {
+							good = false // the intermediate value is observed
+						}
+					}
+				case *ssa.FieldAddr:
+					if h, ok := a.fieldOf(y); ok && h == f && written {
+						// an address of the field taken while it holds the intermediate value: only as the address of a later store
+						if refs := y.Referrers(); refs != nil {
+							for _, r := range *refs {
+								if s2, ok := r.(*ssa.Store); !ok || s2.Addr != ssa.Value(y) {
+									if _, dbg := r.(*ssa.DebugRef); !dbg {
+										good = false
+									}
+								}
+							}
+						}
+					}
+				case *ssa.RunDefers:
+					good = false
+				case ssa.CallInstruction:
+					if written {
+						good = false
+						break
+					}
+					fs, unknown := a.callees(y.Common())
+					if unknown {
+						good = false
+						break
+					}
+					for _, c := range append(fs, a.argFuncs(y.Common())...) {
+						if cs := a.sum[c]; cs == nil || cs.mayWrite&bit != 0 {
+							good = false
+						}
+					}
+				}
+			}
+			if !good {
+				continue
+			}
+			id.skip[st] |= bit
+			for _, d := range dead {
+				id.skip[d] |= bit
+			}
+			identVal[ld] = append(identVal[ld], st)
+		}
+	}
+	for ld, sts := range identVal {
+		all := true
+		if refs := ld.Referrers(); refs != nil {
+			for _, r := range *refs {
+				if _, dbg := r.(*ssa.DebugRef); dbg {
+					continue
+				}
+				found := false
+				for _, st := range sts {
+					if r == ssa.Instruction(st) {
+						found = true
+					}
+				}
+				if !found {
+					all = false
+				}
+			}
+		}
+		if all {
+			id.load[ld] = true
+		}
+	}
+	return id
 }
 
 // isStepStore: st is  x.f = x.f op 1
